@@ -18,6 +18,9 @@ FILES = {
 KINDS = ["Source", "PLoad", "ILoad", "RLoad", "RLoss", "VLoss", "Converter", "LinReg", "PSwitch", "PMux", "Rectifier"]
 
 
+_CTX_SINGLETONS = (ast.expr_context, ast.operator, ast.cmpop, ast.boolop, ast.unaryop)   # shared by all trees of the process: no back links on them
+
+
 class AnalysisError(Exception):
     """the checker cannot read the construct it is supposed to judge -> exit 2"""
 
@@ -454,7 +457,8 @@ def inline_nested_defs(fn):
     ast.fix_missing_locations(new)
     for node in ast.walk(new):
         for ch in ast.iter_child_nodes(node):
-            ch._parent = node
+            if not isinstance(ch, _CTX_SINGLETONS):
+                ch._parent = node
     return new
 
 
@@ -722,7 +726,8 @@ class Model:
             desugar_tree(self.tree[mod])
             for node in ast.walk(self.tree[mod]):
                 for ch in ast.iter_child_nodes(node):
-                    ch._parent = node
+                    if not isinstance(ch, _CTX_SINGLETONS):
+                        ch._parent = node
         self.classes = {}
         self.funcs = {}
         self.consts = {}
@@ -743,7 +748,8 @@ class Model:
             fn = decontinue(inline_pure_aliases(self.func(mod, name)))
             for node in ast.walk(fn):
                 for ch in ast.iter_child_nodes(node):
-                    ch._parent = node
+                    if not isinstance(ch, _CTX_SINGLETONS):
+                        ch._parent = node
             cache[(mod, name)] = fn
         return cache[(mod, name)]
 
@@ -756,7 +762,8 @@ class Model:
                 fn = unroll_literal_loops(inline_pure_aliases(fn))
                 for node in ast.walk(fn):
                     for ch in ast.iter_child_nodes(node):
-                        ch._parent = node
+                        if not isinstance(ch, _CTX_SINGLETONS):
+                            ch._parent = node
             cache[(cls, name)] = fn
         return cache[(cls, name)]
 
